@@ -151,7 +151,7 @@ var hostileLists = map[string][]string{
 	"traffic":      {"", "u20d10", "u20d10,u5d5", ",", "u", "d0", "u0d0", "x5", "u20d10,", ",u5", "u-5", "u99999999999999999999", "20u"},
 	"drm":          {"", "foo", "EZDRM-1-key-cbcs-test", "EZDRM-2-keys-cbcs-test", "eccp-cenc", "None"},
 	"eccp":         {"", "cenc", "cbcs", "foo", "CENC"},
-	"annexI":       {"", "a=1", "a=1,b=2", "abc", "a=1=2", "=", ",", "a=,b"},
+	"annexI":       {"", "a=1", "a=1,b=2", "abc", "a=1=2", "=", ",", "a=,b", "a=1,a=2", "a=1,b=3,a=3", "a=1,a=1,a=1"},
 	"modulo":       {"10"},
 }
 
@@ -342,6 +342,10 @@ func genLivesim(t *rapid.T) Req {
 	case 2:
 		q += "&publishTime=" + rapid.SampledFrom([]string{"2024-04-16T07:34:38Z", "x", "", "1970-01-01T00:00:10Z"}).Draw(t, "pt")
 		expect = ""
+	case 3, 4:
+		// query parameters as Annex I would add them: all, some, repeated more or less often than configured
+		q += rapid.SampledFrom([]string{"&a=1", "&a=1&b=2", "&a=1&b=3", "&a=1&a=2", "&a=1&b=3&a=3", "&a=1&a=2&a=3", "&b=2", "&a=", "&a=1&a=1"}).Draw(t, "annexq")
+		expect = ""
 	}
 	url := "/livesim2/" + strings.Join(parts, "/")
 	if len(parts) > 0 {
@@ -444,7 +448,11 @@ func genOther(t *rapid.T) Req {
 		return Req{Method: "POST", URL: rapid.SampledFrom([]string{"/livesim2/eccp_cenc/testpic_2s/eccp.json", "/eccp.json", "/livesim2/x", "/anything", "/livesim2/eccp_cbcs/testpic_2s/Manifest.mpd/eccp.json"}).Draw(t, "u"), Body: rapid.SampledFrom(laBodies).Draw(t, "body"), Header: map[string]string{"Content-Type": "application/json"}}
 	case "patch":
 		pt := rapid.SampledFrom([]string{"2024-04-16T07:34:38Z", "", "x", "1970-01-01T00:16:38Z", "1970-01-01T00%3A16%3A00Z", "9999-99-99T00:00:00Z", "1970-01-01T00:16:38.5Z"}).Draw(t, "pt")
-		base := rapid.SampledFrom([]string{"/patch/livesim2/patch_60/segtimeline_1/testpic_2s/Manifest.mpp", "/patch/livesim2/segtimeline_1/testpic_2s/Manifest.mpp", "/patch/livesim2/patch_60/testpic_2s/Manifest.mpp", "/patch/livesim2/patch_60/segtimeline_1/nosuch/Manifest.mpp", "/patch/", "/patch/x", "/patch/livesim2/patch_60/segtimelinenr_1/testpic_2s/Manifest.mpd", "/patch/livesim2/patch_abc/segtimeline_1/testpic_2s/Manifest.mpp", "/patch/livesim2/patch_60/segtimeline_1/periods_60/testpic_2s/Manifest_thumbs.mpp"}).Draw(t, "pb")
+		base := rapid.SampledFrom([]string{"/patch/livesim2/patch_60/segtimeline_1/testpic_2s/Manifest.mpp", "/patch/livesim2/segtimeline_1/testpic_2s/Manifest.mpp", "/patch/livesim2/patch_60/testpic_2s/Manifest.mpp", "/patch/livesim2/patch_60/segtimeline_1/nosuch/Manifest.mpp", "/patch/", "/patch/x", "/patch/livesim2/patch_60/segtimelinenr_1/testpic_2s/Manifest.mpd", "/patch/livesim2/patch_abc/segtimeline_1/testpic_2s/Manifest.mpp", "/patch/livesim2/patch_60/segtimeline_1/periods_60/testpic_2s/Manifest_thumbs.mpp",
+			// the patch route in front of things that are not MPDs: media and init segments (whole and chunked), subtitles, thumbnails
+			"/patch/livesim2/testpic_2s/V300/499.m4s", "/patch/livesim2/chunkdur_0.5/ato_1/testpic_2s/V300/499.m4s", "/patch/livesim2/ato_1.5/chunkdur_0.5/testpic_2s/A48/499.m4s",
+			"/patch/livesim2/patch_60/testpic_2s/V300/init.mp4", "/patch/livesim2/timesubsstpp_en/testpic_2s/timestpp-en/499.m4s", "/patch/livesim2/testpic_2s/thumbs/499.jpg",
+			"/patch/livesim2/chunkdur_0.5/ato_1/eccp_cenc/testpic_2s/V300/499.m4s"}).Draw(t, "pb")
 		u := base + "?publishTime=" + pt
 		if rapid.Bool().Draw(t, "withnow") {
 			u += "&nowMS=" + rapid.SampledFrom([]string{"1000000", "abc", "0", "998000", "1000001"}).Draw(t, "pn")
